@@ -21,6 +21,7 @@
 -/
 import Mhd.Proofs.Locks
 import Mhd.Proofs.LocksStop
+import Mhd.Proofs.LocksJoin
 
 namespace Mhd.C18
 open Mhd.Gen.Locks Mhd.Locks
@@ -135,6 +136,28 @@ example : ∃ en ∈ table, ∃ e ∈ en.events, e.kind = Kind.acc Field.referen
 example : ∃ en ∈ table, ∃ e ∈ en.events, e.kind = Kind.acc Field.eready_list true ∧
     underDesignated en e Field.eready_list = false ∧ confined en e Field.eready_list = true := by decide +kernel
 
+example : ∃ en ∈ table, ∃ e ∈ en.events, e.kind = Kind.acc Field.per_ip_count true ∧
+    underDesignated en e Field.per_ip_count = true := by decide +kernel
+
+/-- **The per-address tree and the nonce table are touched under their mutex only.**  Every access —
+    read or write, in any thread role — to the per-IP connection accounting (the search tree
+    `daemon->per_ip_connection_count` handed to tsearch/tfind/tdelete and the `count` of its nodes)
+    and to the digest-auth nonce table (`daemon->nnc[]`: `nonce`, `nc`, `nmask`) is made with
+    `per_ip_connection_mutex` resp. `nnc_lock` certainly held (held on every path, counting what
+    every caller holds); the only other accesses are in start-up code.  No daemon-thread
+    confinement, no benign exception is accepted for these two objects. -/
+theorem per_ip_and_nonce_under_mutex :
+    ∀ en ∈ table, ∀ e ∈ en.events, ∀ f w, e.kind = Kind.acc f w → f ∈ strictFields →
+      strictAccOk en e f = true :=
+  (strictOk_iff table).mp (by decide +kernel)
+
+-- non-vacuity: the table has reads and writes of both objects; a lookup moved in front of the lock
+-- (the accesses of MHD_ip_limit_del lose their mutex) breaks the check
+example : ∃ en ∈ table, ∃ e ∈ en.events, e.kind = Kind.acc Field.per_ip_count false ∧ en.name = "MHD_ip_limit_del" := by
+  decide +kernel
+example : ∃ en ∈ table, ∃ e ∈ en.events, e.kind = Kind.acc Field.nnc false ∧
+    underDesignated en e Field.nnc = true := by decide +kernel
+
 /-- **Flag and list change together.**  Every write of `daemon->have_new` is made while
     `new_connections_mutex` is held (and such writes exist), i.e. inside the critical section that
     inserts into / detaches the hand-over list: no `MHD_add_connection` from another thread can
@@ -199,6 +222,14 @@ example : contextOk (table.map (fun en =>
   decide +kernel
 -- an application callback under the cleanup mutex
 example : callbackOk (mutFn "MHD_connection_close_" (fun es => es.map (fun e => { e with may := [.cleanup_connection_mutex] })) table) = false := by
+  decide +kernel
+
+-- the per-IP lookup is moved in front of MHD_ip_count_lock()
+example : strictOk (mutFn "MHD_ip_limit_del" (fun es => es.map (fun e => { e with must := [] })) table) = false := by
+  decide +kernel
+-- the join loop of close_all_connections carries a saved link across the join
+example : Mhd.StopJoin.cursorRuleOk (unlockLoops.map (fun x =>
+    if x.1 == "close_all_connections" && x.2.2.2.1 == Field.conn_list then (x.1, x.2.1, x.2.2.1, x.2.2.2.1, CursorKind.carriedValue) else x)) = false := by
   decide +kernel
 
 /-! ## B. shutdown state machine -/
@@ -283,5 +314,59 @@ theorem tpc_stop_unfixed_witness :
 -- non-vacuity: three connections, mixed placement and timing
 example : (StopTpc.stopTpc true [(⟨.conn, 0, false⟩, true), (⟨.susp, 0, false⟩, true), (⟨.susp, 0, false⟩, false)]).isSome = true := by
   decide
+
+/-! ## D. loops that release the mutex in their body (regenerated iteration discipline) -/
+
+open Mhd.StopJoin
+
+/-- **No list cursor is carried across an unlock … lock window.**  For every loop of the four source
+    files whose body releases and re-takes a mutex while it walks one of the daemon's lists
+    (`unlockLoops`, regenerated from the clang AST: MHD_cleanup_connections, and the two join loops of
+    close_all_connections), the position used after the window is read again from the list head /
+    tail under the mutex — except the walk over the suspended list (upgraded TLS connections), which
+    keeps its *node* and re-reads the link under the mutex (`pinnedNodeLoop`, trusted exception).
+    The join loop over `connections` and the clean-up loop over `cleanup` are both present. -/
+theorem cursor_not_carried_across_unlock :
+    cursorRuleOk unlockLoops = true ∧
+    (cursorOf unlockLoops "close_all_connections" Field.conn_list).isSome = true ∧
+    cursorOf unlockLoops "MHD_cleanup_connections" Field.cleanup_list = some CursorKind.rereadHead := by
+  decide +kernel
+
+/-- **The stop procedure joins every connection thread** (thread-per-connection mode), with the
+    iteration discipline *as found in the source*: for any number of connections (distinct ids, tail
+    first) and any interleaving of thread exits (`sched`: which other connection threads run their
+    exit path — move their connection from the `connections` list to the `cleanup` list — while the
+    mutex is released around each join, in which order), the join loop followed by the test of the
+    "now that we're alone" loop does not panic, leaves the `connections` list empty, every connection
+    is in the cleanup list, and every thread is joined exactly once (in the loop, or — flag
+    `thread_joined` unset — by MHD_cleanup_connections).  Fails to build when the regenerated
+    discipline of the loop is anything but `rereadHead`. -/
+theorem tpc_join_every_thread (conns : List Nat) (hnd : conns.Nodup) (sched : List (List Nat)) :
+    ∃ s, closeAllTpc (joinLoopCursor unlockLoops) conns sched = Outcome.ok s ∧ s.conn = [] ∧
+      (∀ x, x ∈ s.cleanup ↔ x ∈ conns) ∧
+      (∀ x ∈ conns, (s.joined ++ joinedInCleanup s).count x = 1) ∧
+      (∀ x ∈ s.joined ++ joinedInCleanup s, x ∈ conns) := by
+  rw [cursor_of_rule unlockLoops cursor_not_carried_across_unlock.1 cursor_not_carried_across_unlock.2.1]
+  exact closeAll_reread conns hnd sched
+
+-- non-vacuity: five connections, exits of 4 and 2 during the first join and of 5 during the second
+example : closeAllTpc (joinLoopCursor unlockLoops) [1, 2, 3, 4, 5] [[4, 2], [5]] =
+    Outcome.ok ⟨[], [4, 2, 1, 5, 3], [3, 1]⟩ := by decide +kernel
+example : [1, 2, 3, 4, 5].Nodup := by decide
+
+/-- kernel-checked witness histories for the two carried-cursor variants.  (1) three connections
+    (1 = tail = oldest), the link `prev = pos->prev` saved before the unlock: while the daemon thread
+    waits for thread 1, thread 2 ends and moves its connection to the cleanup list; the saved pointer
+    continues the walk in the cleanup list; connection 3 is never visited and the following loop
+    panics ("Failed to join a thread") with thread 3 unjoined.  (2) the node itself carried and
+    `pos = pos->prev` read after the re-lock: already two connections and no concurrent exit at all
+    suffice (the joined connection has moved itself to the cleanup list). -/
+theorem tpc_join_carried_cursor_witness :
+    closeAllTpc CursorKind.carriedValue [1, 2, 3] [[2]] = Outcome.panic 3 ∧
+    closeAllTpc CursorKind.freshLinkOfCarriedNode [1, 2] [] = Outcome.panic 2 := by
+  decide +kernel
+
+-- … while without concurrent exits the carried link goes unnoticed (why the test suite passes)
+example : closeAllTpc CursorKind.carriedValue [1, 2, 3] [] = Outcome.ok ⟨[], [1, 2, 3], [3, 2, 1]⟩ := by decide +kernel
 
 end Mhd.C18
